@@ -87,6 +87,8 @@ structure Keys where
   wakeLog : List WakeRec := []
   /-- a `set_result` reached an operation whose storage is gone -/
   uaf : Bool := false
+  /-- ghost: `update_waker` was called for this operation while it was pending -/
+  hadWaker : Id → Bool := fun _ => false
 
 instance : Inhabited Keys := ⟨{}⟩
 
@@ -118,7 +120,10 @@ def Keys.notify (ks : Keys) (id : Id) (r : Res) : Keys :=
 
 /-- `Proactor::update_waker` -/
 def Keys.setWaker (ks : Keys) (id : Id) (w : WakerId) : Keys :=
-  { ks with slot := upd ks.slot id ((ks.slot id).setWaker w) }
+  { ks with slot := upd ks.slot id ((ks.slot id).setWaker w),
+            hadWaker := match ks.slot id with
+              | .pending _ => upd ks.hadWaker id true
+              | _ => ks.hadWaker }
 
 /-- `Proactor::pop`: `has_result` ? `take_result` (the RawOp is consumed) : `Pending(key)`. -/
 def Keys.pop (ks : Keys) (id : Id) : Keys × Option Res :=
